@@ -3,49 +3,43 @@ From Common Require Import Base.
 From Gate Require Import Model.
 Open Scope N_scope.
 
+(* the gate of the repaired ServeHTTP: no guard on the flags, no assumption on the credential *)
 Lemma gate f c lookup0 m p body :
-  safe_flags f = true -> wf_cred c -> serve f c lookup0 m p body = Invoked ->
+  serve f c lookup0 m p body = Invoked ->
   (must_auth f = true -> authed c = true) /\
   (forall ps, perms f = Some ps ->
      authed c = true /\ (admin c = true \/ forallb (granted c) ps = true)).
 Proof.
-  unfold safe_flags, wf_cred, serve.
+  unfold serve, needs_auth.
   destruct f as [ma ca lw pm vd]; cbn [must_auth can_auth lightweight perms valid].
-  intros S W H.
-  destruct lw.
-  - (* lightweight: nothing may be declared *)
+  intros H.
+  destruct (ma || match pm with Some _ => true | None => false end) eqn:NA.
+  - (* something to enforce: the authentication step runs, lightweight or not *)
+    rewrite andb_false_r in H. cbn [negb andb] in H.
+    destruct (locked c); [discriminate|].
+    destruct (authed c) eqn:A; [|discriminate].
+    split; [reflexivity|]. intros ps E. split; [reflexivity|]. subst pm.
+    destruct (admin c); [left; reflexivity|]. right.
+    destruct (find (fun p0 => negb (granted c p0)) ps) as [x|] eqn:F.
+    { exfalso. destruct m, p, vd, body as [[|]|], ca, (has_user c); cbn in H; discriminate. }
+    apply forallb_forall. intros x Hx.
+    pose proof (find_none _ _ F _ Hx) as N0. cbn beta in N0. destruct (granted c x); [reflexivity|discriminate].
+  - (* nothing declared *)
     destruct ma; [discriminate|]. destruct pm; [discriminate|].
     split; [discriminate|]. intros ps E. discriminate.
-  - cbn [negb andb] in H.
-    destruct (locked c); [discriminate|].
-    destruct (authed c) eqn:A.
-    + split; [reflexivity|]. intros ps E. split; [reflexivity|]. subst pm.
-      destruct (admin c); [left; reflexivity|]. right.
-      destruct (find (fun p0 => negb (granted c p0)) ps) as [x|] eqn:F.
-      { exfalso. destruct m, p, vd, body as [[|]|], ca, ma, (has_user c); cbn in H; discriminate. }
-      apply forallb_forall. intros x Hx.
-      pose proof (find_none _ _ F _ Hx) as N0. cbn beta in N0. destruct (granted c x); [reflexivity|discriminate].
-    + cbn [negb andb] in H. destruct ma; [discriminate|].
-      split; [discriminate|]. intros ps E. subst pm. discriminate.
 Qed.
 
 (* a failed authentication or permission check is final: no body brings the handler back *)
 Lemma rejected_not_invoked f c lookup0 m p body :
-  lightweight f = false ->
   (must_auth f = true /\ authed c = false) \/
   (exists ps x, perms f = Some ps /\ admin c = false /\ In x ps /\ granted c x = false) ->
   serve f c lookup0 m p body <> Invoked.
 Proof.
-  unfold serve. destruct f as [ma ca lw pm vd]; cbn [must_auth can_auth lightweight perms valid].
-  intros L R. subst lw. cbn [negb andb].
-  destruct (locked c); [discriminate|].
+  intros R H. destruct (gate _ _ _ _ _ _ H) as [G1 G2].
   destruct R as [[M A]|(ps & x & E & Ad & Hx & G)].
-  - subst ma. rewrite A. cbn. discriminate.
-  - subst pm. rewrite Ad.
-    destruct (find (fun p0 => negb (granted c p0)) ps) as [y|] eqn:F.
-    + destruct (negb (authed c) && ma); [discriminate|].
-      destruct m, p, vd, body as [[|]|], ca, ma, (has_user c), (authed c); cbn; discriminate.
-    + pose proof (find_none _ _ F _ Hx) as N0. cbn beta in N0. rewrite G in N0. discriminate.
+  - rewrite (G1 M) in A. discriminate.
+  - destruct (G2 _ E) as [_ [Ad'|All]]; [congruence|].
+    rewrite forallb_forall in All. rewrite (All _ Hx) in G. discriminate.
 Qed.
 
 (* ---- permission changes over time *)
@@ -62,13 +56,13 @@ Proof.
 Qed.
 
 Lemma revoked_not_invoked s0 h f u tk ps p :
-  lightweight f = false -> perms f = Some ps -> In p ps ->
+  perms f = Some ps -> In p ps ->
   memN p (perms_of (store_after s0 h) u) = false ->
   memN ROOT (perms_of (store_after s0 h) u) = false ->
   exists r, run_store s0 (h ++ [Request f u tk]) = run_store s0 h ++ [r] /\ r <> Invoked.
 Proof.
-  intros L E Hp G R. rewrite run_store_app. cbn [run_store]. eexists. split; [reflexivity|].
-  apply rejected_not_invoked; [exact L|]. right. exists ps, p. repeat split; try assumption.
+  intros E Hp G R. rewrite run_store_app. cbn [run_store]. eexists. split; [reflexivity|].
+  apply rejected_not_invoked. right. exists ps, p. repeat split; try assumption.
   - cbn. rewrite R. apply andb_false_r.
   - rewrite granted_now. exact G.
 Qed.
@@ -92,9 +86,44 @@ Proof.
     all: intros E; rewrite ?orb_false_r in E; auto.
 Qed.
 
-(* ---- the unrestricted claims fail *)
-Definition gate_statement : Prop :=
-  forall f c lookup0 m p body, wf_cred c -> serve f c lookup0 m p body = Invoked ->
+(* ---- builder monotonicity, every call order *)
+Definition auth_false (c : call) : bool := match c with Authentication false => true | _ => false end.
+Definition is_perms (c : call) : bool := match c with Permissions _ => true | _ => false end.
+
+Lemma must_kept cs : forall f, must_auth f = true ->
+  forallb (fun c => negb (auth_false c)) cs = true -> must_auth (fold_left apply1 cs f) = true.
+Proof.
+  induction cs as [|c cs IH]; intros f M H; [exact M|]. cbn in H. apply andb_prop in H as [H1 H2].
+  cbn [fold_left]. apply IH; [|exact H2].
+  destruct c as [[|]|[|]|ps|b|]; cbn in *; try reflexivity; try exact M; discriminate.
+Qed.
+
+Lemma requested_kept cs1 c cs2 :
+  requests_auth c = true -> forallb (fun c => negb (auth_false c)) cs2 = true ->
+  must_auth (build (cs1 ++ c :: cs2)) = true.
+Proof.
+  intros R H. unfold build. rewrite fold_left_app. cbn [fold_left]. apply must_kept; [|exact H].
+  destruct c as [[|]|[|]|ps|b|]; cbn in *; try discriminate; reflexivity.
+Qed.
+
+Lemma perms_kept cs : forall f, (exists l, perms f = Some l) -> exists l, perms (fold_left apply1 cs f) = Some l.
+Proof.
+  induction cs as [|c cs IH]; intros f H; [exact H|]. cbn [fold_left]. apply IH.
+  destruct H as [l E]. destruct c as [b|b|ps|b|]; cbn; rewrite ?E; eauto.
+Qed.
+
+Lemma perms_imply_auth cs : existsb is_perms cs = true -> needs_auth (build cs) = true.
+Proof.
+  intros H. apply existsb_exists in H as (c & Hc & P). apply in_split in Hc as (cs1 & cs2 & ->).
+  unfold build. rewrite fold_left_app. cbn [fold_left].
+  destruct c as [b|b|ps|b|]; try discriminate.
+  destruct (perms_kept cs2 (apply1 (fold_left apply1 cs1 new_route) (Permissions ps))) as [l E]; [cbn; eauto|].
+  unfold needs_auth. rewrite E. apply orb_true_r.
+Qed.
+
+(* ---- the gate and the builder before the repairs *)
+Definition gate_statement_old : Prop :=
+  forall f c lookup0 m p body, wf_cred c -> serve_old f c lookup0 m p body = Invoked ->
   (must_auth f = true -> authed c = true) /\
   (forall ps, perms f = Some ps -> authed c = true /\ (admin c = true \/ forallb (granted c) ps = true)).
 
@@ -102,17 +131,20 @@ Definition nobody : cred := mkCred false false false false [] (fun _ => false).
 (* wrong password for a user who holds permission 1 *)
 Definition impostor : cred := mkCred false false false true [] (fun p => p =? 1).
 
-Lemma gate_refuted_lightweight :
+Lemma gate_old_refuted_lightweight :
   let f := build [LightWeight true; Authentication true] in
-  must_auth f = true /\ wf_cred nobody /\ serve f nobody (fun _ => false) true true None = Invoked /\ authed nobody = false.
+  must_auth f = true /\ wf_cred nobody /\ serve_old f nobody (fun _ => false) true true None = Invoked /\
+  authed nobody = false /\ serve f nobody (fun _ => false) true true None = Status 403.
 Proof. cbn. repeat split. intros H; discriminate. Qed.
 
-Lemma gate_refuted_perms_unauth :
+Lemma gate_old_refuted_perms_unauth :
   let f := build [Permissions [1]; Authentication false] in
-  perms f = Some [1] /\ wf_cred impostor /\ serve f impostor (fun _ => false) true true None = Invoked /\ authed impostor = false.
+  perms f = Some [1] /\ wf_cred impostor /\ serve_old f impostor (fun _ => false) true true None = Invoked /\
+  authed impostor = false /\ serve f impostor (fun _ => false) true true None = Status 403.
 Proof. cbn. repeat split. intros H; discriminate. Qed.
 
-Lemma builder_refuted :
+Lemma builder_old_refuted :
   existsb requests_auth [Authentication true; LightWeight true] = true /\
-  must_auth (build [Authentication true; LightWeight true]) = false.
-Proof. split; reflexivity. Qed.
+  must_auth (build_old [Authentication true; LightWeight true]) = false /\
+  must_auth (build [Authentication true; LightWeight true]) = true.
+Proof. repeat split; reflexivity. Qed.
